@@ -7,6 +7,8 @@ CONSTANTS ND = 1
  CheckWait = TRUE
  Buffered = TRUE
  ExclTmp = TRUE
+ DirIsEmpty = FALSE
+ ArgCheck = TRUE
  Emit = TRUE
-INVARIANTS P1 P2 P3 P4 P5 TypeOK
+INVARIANTS P1 P2 P3 P4 P5 P6 TypeOK
 CHECK_DEADLOCK FALSE
